@@ -9,6 +9,7 @@ from ..cfg import Ev, Graph, reach
 from ..engine import Ctx, resolve_all
 from ..paths import EXC_LABELS, NORMAL_LABELS, Search
 from ..program import AnalysisError, FuncEnv, FuncUnit, dotted, unparse
+from ..absint import AFunc
 from ..report import Collector
 from .common import loop_region, path_text, awaited_in_frame
 
@@ -453,6 +454,19 @@ def rule_wrapper_kind(ctx: Ctx, out: Collector) -> None:
                                 f'there is seen by every later run and by overlapping runs of every chart that uses the node',
                                 props={'C07', 'C08'})
                     cons = f'{unit.module.name}::{unit.qualname}::{"async " if w.is_async else ""}def {w.name} installed as process [wrapper kind follows the wrapped method]'
+                    # decided by interpreting the function for a wrapped coroutine function and for a wrapped plain function:
+                    # which local function ends up as the run method of the created class
+                    if unit.name == 'build_node':
+                        from .bw import run_build_node
+                        installed_for = set()
+                        for is_coro in (False, True):
+                            for created, _proc in run_build_node(ctx, is_coro):
+                                for v_ in created.attrs.values():
+                                    if isinstance(v_, AFunc) and v_.unit is w:
+                                        installed_for.add(is_coro)
+                        kind_guard = None if installed_for == {False, True} else (next(iter(installed_for)) if installed_for else None)
+                        if not installed_for:
+                            continue          # defined but never installed
                     if kind_guard is not None and kind_guard == w.is_async:
                         out.ok('CC-7', cons, ctx.p.loc(unit, w.node),
                                f'{"coroutine" if w.is_async else "plain"} wrapper only when iscoroutinefunction(<wrapped>) is {kind_guard}')
